@@ -358,6 +358,8 @@ pub fn gen_graph(rng: &mut Rng, n: usize, decl_mode: DeclMode) -> GraphSpec {
         },
     };
     let greedy = ntypes > 8 && rng.chance(1, 2);
+    // swarm: a third of the graphs use the unusual (legal) ways of returning the lists
+    let list_styles = rng.chance(1, 3);
     let mut fns = Vec::with_capacity(n);
     for _ in 0..n {
         let (mut r, mut w) = (0u16, 0u16);
@@ -397,7 +399,8 @@ pub fn gen_graph(rng: &mut Rng, n: usize, decl_mode: DeclMode) -> GraphSpec {
                 }
             }
         }
-        fns.push(FnDecl { reads: r, writes: w });
+        let style = if list_styles { rng.below(16) as u8 } else { 0 };
+        fns.push(FnDecl { reads: r, writes: w, style });
     }
     GraphSpec {
         fns,
@@ -624,6 +627,8 @@ pub fn gen_run(rng: &mut Rng, n: usize, k: &RunKnobs) -> RunSpec {
         }
     }
 
+    let coop_flag = if n >= 25 { rng.chance(1, 3) } else { rng.chance(1, 16) };
+    let coop_burn_v: u8 = if coop_flag && rng.chance(1, 2) { [64, 120, 126, 127, 128][rng.below(5)] } else { 0 };
     RunSpec {
         api,
         reverse,
@@ -638,7 +643,10 @@ pub fn gen_run(rng: &mut Rng, n: usize, k: &RunKnobs) -> RunSpec {
         may_forget: k.allow_forget && api.is_stream() && rng.chance(1, 6),
         // tokio's cooperative budget only bites when many operations happen in one
         // poll: mostly wide graphs
-        coop: if n >= 25 { rng.chance(1, 3) } else { rng.chance(1, 24) },
+        coop: coop_flag,
+        leave_refs: false,
+        carried_slots: 0,
+        coop_burn: coop_burn_v,
         unwind_drop_mask: if api.is_stream() && rng.chance(1, 8) { rng.range(1, 255) as u8 } else { 0 },
     }
 }
@@ -789,7 +797,11 @@ pub fn gen_case(prop: Prop, rng: &mut Rng) -> GenCase {
         }
         Prop::C20 => {
             mode = Mode::Concurrent;
-            nruns = if rng.chance(1, 12) { 4 } else { rng.range(2, 3) };
+            nruns = match rng.below(24) {
+                0 | 1 => 4,
+                2 => rng.range(5, 6),
+                _ => rng.range(2, 3),
+            };
             allow_wide = false;
             knobs.apis = apis_for(&all_fams, true);
         }
@@ -813,12 +825,24 @@ pub fn gen_case(prop: Prop, rng: &mut Rng) -> GenCase {
         sched.push(gen_sched(rng, &rs, prop));
         runs.push(rs);
     }
+    if mode == Mode::History && rng.chance(1, 3) {
+        // FnRefs outliving their stream: the run before the last walks away with what it
+        // holds, the last run drops them (or never does) while it is in progress
+        let k = runs.len();
+        if runs[k - 2].api.is_stream() {
+            runs[k - 2].leave_refs = true;
+            runs[k - 2].may_abort = true;
+            sched[k - 2].abort_64 = sched[k - 2].abort_64.max(3);
+        }
+        runs[k - 1].carried_slots = rng.range(1, 3) as u8;
+    }
     if mode == Mode::Concurrent {
         // the cooperative budget belongs to the task that polls all the runs: it is
         // one setting for the whole world (and for each run's solo re-execution)
-        let coop = runs[0].coop;
+        let (coop, burn) = (runs[0].coop, runs[0].coop_burn);
         for r in runs.iter_mut() {
             r.coop = coop;
+            r.coop_burn = burn;
         }
     }
     GenCase {
